@@ -123,6 +123,39 @@ fn pool(seed: u64, n: usize) -> Vec<Cfg> {
         }
     }
     v.truncate(n);
+    // appended after the n configurations (so that nothing above moves): pairs on two different flops made of the same three
+    // ranks and the same suits, the suits of two cards exchanged (Jh9d3c / Jd9h3c) - equal under any key built from the
+    // flop's rank set and suit set; same ranges, so the twin block of record_c15 runs them alternately in both creation orders
+    for t in 0..2usize {
+        let mut c = v[(5 * t + 1) % v.len()].clone();
+        c.ranges.retain(|r| !r.is_empty());
+        let busy: Vec<usize> = c.ranges.iter().flat_map(|r| r.iter().flat_map(|e| [e.a, e.b])).collect();
+        let mut tries = 0;
+        loop {
+            tries += 1;
+            // ace and king on the flop: the two decks differ within their first six cards, inside the window below
+            let r = [0usize, 1, 2 + rng.usize(11)];
+            let su = rng.distinct(3, 4);
+            let (f1, f2) = if t == 0 {
+                ([4 * r[0] + su[0], 4 * r[1] + su[1], 4 * r[2] + su[2]], [4 * r[0] + su[1], 4 * r[1] + su[0], 4 * r[2] + su[2]])
+            } else {
+                // a pair on the flop: JhJd3c / JhJc3d
+                ([4 * r[0] + su[0], 4 * r[0] + su[1], 4 * r[2] + su[2]], [4 * r[0] + su[0], 4 * r[0] + su[2], 4 * r[2] + su[1]])
+            };
+            if tries < 500 && f1.iter().chain(f2.iter()).any(|k| busy.contains(k)) {
+                continue;
+            }
+            c.scoped = true;
+            c.from = (0, 1);
+            c.to = (0, 9);
+            let mut d = c.clone();
+            c.flop = f1;
+            d.flop = f2;
+            v.push(c);
+            v.push(d);
+            break;
+        }
+    }
     v
 }
 
@@ -187,7 +220,7 @@ pub fn record_c15(args: &Args, mut out: Out) -> usize {
     let exe = std::env::current_exe().unwrap();
     let mut solo_line = vec![];
     let mut solo_text: Vec<String> = vec![];
-    for i in 0..npool {
+    for i in 0..p.len() {
         let o = std::process::Command::new(&exe)
             .args(["c15-solo", "--seed", &seed.to_string(), "--pool", &npool.to_string(), "--index", &i.to_string()])
             .output()
@@ -210,9 +243,9 @@ pub fn record_c15(args: &Args, mut out: Out) -> usize {
     }
     // twins: two live iterators over the same combos seat by seat, differing only in weights, created one right after
     // the other, called alternately (both creation orders)
-    for i in 0..npool {
+    for i in 0..p.len() {
         for j in [i + 1, i + 2] {
-            if j >= npool {
+            if j >= p.len() {
                 continue;
             }
             let same = p[i].ranges.len() == p[j].ranges.len()
